@@ -316,8 +316,120 @@ func phantomRequestProbe(c *Ctx) {
 	}
 }
 
+// earlyFinishProbe (round 10, C01-mm): the handler answers after the first message and stops
+// reading; the client keeps sending until Send reports the end (an error wrapping io.EOF) and
+// then reads: the response that is already there arrives intact, followed by a clean end.
+func earlyFinishProbe(c *Ctx) {
+	for _, proto := range []string{"connect", "grpc", "grpcweb"} {
+		for _, kind := range []string{"client", "bidi"} {
+			var h http.Handler
+			if kind == "client" {
+				h = connect.NewClientStreamHandler("/s/m", func(ctx context.Context, s *connect.ClientStream[[]byte]) (*connect.Response[[]byte], error) {
+					s.Receive()
+					return connect.NewResponse(&[]byte{0xA1, 0xA2, 0xA3}), nil
+				}, connect.WithCodec(rawCodec{"raw"}))
+			} else {
+				h = connect.NewBidiStreamHandler("/s/m", func(ctx context.Context, s *connect.BidiStream[[]byte, []byte]) error {
+					_, _ = s.Receive()
+					_ = s.Send(&[]byte{0xA1})
+					return s.Send(&[]byte{0xA2, 0xA3})
+				}, connect.WithCodec(rawCodec{"raw"}))
+			}
+			desc := fmt.Sprintf("%s %s call over HTTP/2: the handler answers after one message; the client sends until Send reports the end, then reads", proto, kind)
+			c.Begin(desc)
+			c.Count("early-finish-probe")
+			got := safely(func() string {
+				srv := httptest.NewUnstartedServer(h)
+				srv.EnableHTTP2 = true
+				srv.StartTLS()
+				defer srv.Close()
+				cl := connect.NewClient[[]byte, []byte](srv.Client(), srv.URL+"/s/m", protoOpts(proto)...)
+				big := bytes.Repeat([]byte{9}, 1<<20)
+				if kind == "client" {
+					st := cl.CallClientStream(context.Background())
+					var serr error
+					for i := 0; i < 64 && serr == nil; i++ {
+						serr = st.Send(&big)
+					}
+					res, err := st.CloseAndReceive()
+					if err != nil {
+						return fmt.Sprintf("send ended with %v; CloseAndReceive failed: %v", serr, err)
+					}
+					return fmt.Sprintf("response=%x", *res.Msg)
+				}
+				st := cl.CallBidiStream(context.Background())
+				var serr error
+				for i := 0; i < 64 && serr == nil; i++ {
+					serr = st.Send(&big)
+				}
+				var got [][]byte
+				var end error
+				for i := 0; i < 5; i++ {
+					m, err := st.Receive()
+					if err != nil {
+						end = err
+						break
+					}
+					got = append(got, *m)
+				}
+				_ = st.CloseRequest()
+				_ = st.CloseResponse()
+				return fmt.Sprintf("response=%x clean-end=%v", got, errors.Is(end, io.EOF))
+			})
+			want := "response=a1a2a3"
+			if kind == "bidi" {
+				want = "response=[a1 a2a3] clean-end=true"
+			}
+			if got != want {
+				c.Fail("e2e-response-lost", desc, got, "what the handler sent arrives, in order, followed by a clean end: "+want)
+			}
+		}
+	}
+}
+
+// requestReuseProbe (round 10, C01-mn): a Request value that was sent with CallUnary is sent
+// again with CallServerStream (Connect): the messages of the stream arrive all the same.
+func requestReuseProbe(c *Ctx) {
+	for _, codec := range []string{"raw"} {
+		hu := connect.NewUnaryHandler("/s/u", func(ctx context.Context, r *connect.Request[[]byte]) (*connect.Response[[]byte], error) {
+			return connect.NewResponse(&[]byte{1}), nil
+		}, connect.WithCodec(rawCodec{codec}))
+		hs := connect.NewServerStreamHandler("/s/s", func(ctx context.Context, r *connect.Request[[]byte], s *connect.ServerStream[[]byte]) error {
+			_ = s.Send(&[]byte{0xB1})
+			out := append([]byte{0xB2}, (*r.Msg)...)
+			return s.Send(&out)
+		}, connect.WithCodec(rawCodec{codec}))
+		desc := "Connect: one Request value sent with CallUnary and then with CallServerStream"
+		c.Begin(desc)
+		c.Count("request-reuse-probe")
+		got := safely(func() string {
+			cu := connect.NewClient[[]byte, []byte](&inprocClient{h: hu}, "http://h/s/u", connect.WithCodec(rawCodec{codec}))
+			cs := connect.NewClient[[]byte, []byte](&inprocClient{h: hs}, "http://h/s/s", connect.WithCodec(rawCodec{codec}))
+			req := connect.NewRequest(&[]byte{7})
+			req.Header().Set("X-App", "a")
+			if _, err := cu.CallUnary(context.Background(), req); err != nil {
+				return "unary: " + err.Error()
+			}
+			st, err := cs.CallServerStream(context.Background(), req)
+			if err != nil {
+				return "stream: " + err.Error()
+			}
+			var got [][]byte
+			for st.Receive() {
+				got = append(got, append([]byte{}, (*st.Msg())...))
+			}
+			return fmt.Sprintf("messages=%x err=%v", got, st.Err())
+		})
+		if got != "messages=[b1 b207] err=<nil>" {
+			c.Fail("e2e-request-reuse", desc, got, "the stream's messages arrive: messages=[b1 b207] err=<nil>")
+		}
+	}
+}
+
 func streamE2E(c *Ctx) {
 	phantomRequestProbe(c)
+	earlyFinishProbe(c)
+	requestReuseProbe(c)
 	r := c.Rng
 	protos := []string{"connect", "grpc", "grpcweb"}
 	kinds := []string{"unary", "client", "server", "bidi"}
